@@ -29,10 +29,15 @@ CONSTANTS HandlerBase,    \* dispatcher's own steps without actions (C03)
 
 Rec == ndJsonDeserialize(IOEnv.TRACE)
 
-VARIABLES l, acts, frames, dropped, usedIds, before, libDisp, prevKind,
+VARIABLES donefr,   \* finished deliveries of the run: set of [sig, init, ran] (bulk removal is atomic)
+          usig,     \* open unregister_signal calls: set of <<thread, signal>>
+          tainted,  \* a destructor of captured state panicked while an old version was being freed
+                    \* (the rest of that version is leaked by the unwinding, as with any Rust
+                    \* collection): later removals cannot be expected to release their state
+          l, acts, frames, dropped, usedIds, before, libDisp, prevKind,
           live, cur, replaced, held, everFreed, viol
 
-vars == <<l, acts, frames, dropped, usedIds, before, libDisp, prevKind,
+vars == <<donefr, usig, tainted, l, acts, frames, dropped, usedIds, before, libDisp, prevKind,
           live, cur, replaced, held, everFreed, viol>>
 
 R == Rec[l]
@@ -60,15 +65,17 @@ InitState ==
     /\ held = {}
     /\ everFreed = {}
     /\ viol = {}
+    /\ usig = {} /\ tainted = FALSE /\ donefr = {}
 
 TInit == l = 1 /\ InitState
 
 Quiescent == DOMAIN frames = {} /\ held = {}
-             /\ \A g \in Tags : acts[g].st \notin {"registering", "removing"}
+             /\ \A g \in Tags : acts[g].st \notin {"registering", "removing", "maybe"}
+             /\ usig = {}
 
 \* A run starts: everything back to the initial state; the scenario's previous dispositions.
 TReset ==
-    /\ Ev("reset")
+    /\ Ev("reset") /\ usig' = {} /\ tainted' = FALSE /\ donefr' = {}
     /\ acts' = [g \in {} |-> 0] /\ frames' = [f \in {} |-> 0] /\ dropped' = {}
     /\ usedIds' = {} /\ before' = {} /\ libDisp' = {}
     /\ prevKind' = IF "prev" \in DOMAIN R
@@ -81,11 +88,14 @@ TReset ==
     /\ held' = {} /\ everFreed' = {}
     /\ viol' = viol \cup Flag(l > 1 /\ ~Quiescent /\ viol = {}, "not_quiescent_at_end")
 
-Keep(vs) == UNCHANGED vs
+Keep(vs) == UNCHANGED vs /\ UNCHANGED <<usig, tainted, donefr>>
+Keep2(vs) == UNCHANGED vs /\ UNCHANGED <<tainted, donefr>>   \* for the actions that change usig
+Keep3(vs) == UNCHANGED vs /\ UNCHANGED <<usig, donefr>>      \* for the action that changes tainted
+Keep4(vs) == UNCHANGED vs /\ UNCHANGED <<usig, tainted>>     \* for the action that changes donefr
 
 TCallReg ==
     /\ Ev("call_reg")
-    /\ acts' = Put(acts, R.tag, [sig |-> R.sig, id |-> 0, st |-> "registering", by |-> R.t])
+    /\ acts' = Put(acts, R.tag, [sig |-> R.sig, id |-> 0, st |-> "registering", by |-> {R.t}])
     /\ frames' = [f \in DOMAIN frames |->
                     IF frames[f].sig = R.sig THEN [frames[f] EXCEPT !.may = @ \cup {R.tag}]
                     ELSE frames[f]]
@@ -94,10 +104,17 @@ TCallReg ==
 
 TRetReg ==
     /\ Ev("ret_reg")
-    /\ acts' = [acts EXCEPT ![R.tag].id = R.id, ![R.tag].st = "active"]
+    \* An unregister_signal of the same signal that is under way may or may not see the new action:
+    \* until it returns the action is "maybe" there (no delivery is obliged to run it). It may even
+    \* have removed it already (st = "removing": released by that call before register returned).
+    /\ LET removers == {u[1] : u \in {x \in usig : x[2] = acts[R.tag].sig}} IN
+       acts' = IF acts[R.tag].st = "removing" THEN [acts EXCEPT ![R.tag].id = R.id]
+               ELSE IF removers # {} THEN [acts EXCEPT ![R.tag].id = R.id, ![R.tag].st = "maybe",
+                                                       ![R.tag].by = removers]
+               ELSE [acts EXCEPT ![R.tag].id = R.id, ![R.tag].st = "active"]
     /\ usedIds' = usedIds \cup {R.id}
     /\ viol' = viol \cup Flag(R.id \in usedIds \/ R.id = 0, "id_reused")
-                    \cup Flag(R.tag \in dropped, "dropped_while_registered")
+                    \cup Flag(R.tag \in dropped /\ acts[R.tag].st # "removing", "dropped_while_registered")
     /\ Keep(<<frames, dropped, before, libDisp, prevKind, live, cur, replaced, held, everFreed>>)
 
 \* A registration that failed (error or the documented panic): nothing is registered and the
@@ -112,14 +129,18 @@ TRetRegFail ==
               everFreed>>)
 
 \* Removal begins: the tag is no longer obligatory for deliveries in flight.
+\* `by` is the set of threads currently trying to remove the action (unregister(id) and
+\* unregister_signal may overlap); whoever releases its state is the remover and must report so.
 StartRemoving(gs, t) ==
-    /\ acts' = [g \in Tags |-> IF g \in gs THEN [acts[g] EXCEPT !.st = "removing", !.by = t]
+    /\ acts' = [g \in Tags |-> IF g \in gs
+                               THEN [acts[g] EXCEPT !.st = "removing",
+                                                    !.by = IF acts[g].st \in {"removing", "maybe"} THEN @ \cup {t} ELSE {t}]
                                ELSE acts[g]]
     /\ frames' = [f \in DOMAIN frames |-> [frames[f] EXCEPT !.must = @ \ gs]]
 
 TCallUnreg ==
     /\ Ev("call_unreg")
-    /\ IF acts[R.tag].st = "active"
+    /\ IF acts[R.tag].st \in {"active", "removing", "maybe"} /\ R.tag \notin dropped
        THEN StartRemoving({R.tag}, R.t)
        ELSE Keep(<<acts, frames>>)
     /\ Keep(<<dropped, usedIds, before, libDisp, prevKind, live, cur, replaced, held, everFreed,
@@ -129,41 +150,65 @@ Running(g) == \E f \in DOMAIN frames : frames[f].inAct = g
 
 TRetUnreg ==
     /\ Ev("ret_unreg")
-    /\ LET mine == acts[R.tag].st = "removing" /\ acts[R.tag].by = R.t IN
-       /\ acts' = IF mine THEN [acts EXCEPT ![R.tag].st = "removed"] ELSE acts
+    /\ LET a == acts[R.tag]
+           cand == a.st = "removing" /\ R.t \in a.by
+           won == cand /\ R.tag \in dropped /\ a.by = {R.t}        \* this thread released it
+           claims == R.res = 1
+           mine == won \/ (cand /\ claims) IN
+       /\ acts' = IF mine THEN [acts EXCEPT ![R.tag].st = "removed"]
+                  ELSE IF cand THEN [acts EXCEPT ![R.tag].by = @ \ {R.t}] ELSE acts
        /\ viol' = viol
-            \cup Flag(mine /\ R.res # 1, "unreg_result")
-            \cup Flag(~mine /\ R.res # 0, "unreg_result")
+            \cup Flag(won /\ ~claims, "unreg_result")
+            \cup Flag(~cand /\ claims, "unreg_result")
+            \cup Flag(cand /\ claims /\ R.tag \in dropped /\ a.by # {R.t}, "unreg_result")
+            \* reports "not found" although nobody else is removing the action it was asked about
+            \cup Flag(cand /\ ~claims /\ R.tag \notin dropped /\ a.by = {R.t}, "unreg_result")
             \cup Flag(mine /\ Running(R.tag), "act_in_progress_at_unreg_return")
-            \cup Flag(mine /\ R.tag \notin dropped, "not_dropped_at_return")
+            \cup Flag(mine /\ R.tag \notin dropped /\ ~tainted, "not_dropped_at_return")
     /\ Keep(<<frames, dropped, usedIds, before, libDisp, prevKind, live, cur, replaced, held,
               everFreed>>)
 
 \* The destructor of the removed action's state panicked inside unregister: the removal itself
 \* was already published.
 TRetUnregPanic ==
-    /\ Ev("ret_unreg_panic")
+    /\ Ev("ret_unreg_panic") /\ tainted' = TRUE
     /\ acts' = [acts EXCEPT ![R.tag].st = "removed"]
-    /\ Keep(<<frames, dropped, usedIds, before, libDisp, prevKind, live, cur, replaced, held,
+    /\ Keep3(<<frames, dropped, usedIds, before, libDisp, prevKind, live, cur, replaced, held,
               everFreed, viol>>)
 
 TCallUnregSig ==
     /\ Ev("call_unregsig")
-    /\ StartRemoving(TagsOf(R.sig, {"active"}), R.t)
-    /\ Keep(<<dropped, usedIds, before, libDisp, prevKind, live, cur, replaced, held, everFreed,
-              viol>>)
+    /\ StartRemoving({g \in TagsOf(R.sig, {"active", "removing", "maybe"}) : g \notin dropped}, R.t)
+    /\ usig' = usig \cup {<<R.t, R.sig>>}
+    /\ Keep2(<<dropped, usedIds, before, libDisp, prevKind, live, cur, replaced, held, everFreed,
+               viol>>)
 
 TRetUnregSig ==
     /\ Ev("ret_unregsig")
-    /\ LET mine == {g \in Tags : acts[g].sig = R.sig /\ acts[g].st = "removing"
-                                 /\ acts[g].by = R.t} IN
-       /\ acts' = [g \in Tags |-> IF g \in mine THEN [acts[g] EXCEPT !.st = "removed"]
-                                  ELSE acts[g]]
+    /\ LET cand == {g \in Tags : acts[g].sig = R.sig /\ acts[g].st \in {"removing", "maybe"}
+                                 /\ R.t \in acts[g].by}
+           mine == {g \in cand : g \in dropped /\ acts[g].by = {R.t}}
+           alone == {g \in cand : acts[g].st = "removing" /\ acts[g].id # 0
+                                   /\ g \notin dropped /\ acts[g].by = {R.t}} IN
+       /\ acts' = [g \in Tags |->
+                     IF g \in mine THEN [acts[g] EXCEPT !.st = "removed"]
+                     ELSE IF g \in cand /\ acts[g].st = "maybe" /\ acts[g].by = {R.t}
+                          THEN [acts[g] EXCEPT !.st = "active", !.by = {}]   \* it was not seen after all
+                     ELSE IF g \in cand THEN [acts[g] EXCEPT !.by = @ \ {R.t}]
+                     ELSE acts[g]]
+       /\ usig' = usig \ {<<R.t, R.sig>>}
        /\ viol' = viol
-            \cup Flag((mine # {}) # (R.res = 1), "unregsig_result")
+            \cup Flag(~tainted /\ (mine # {}) # (R.res = 1), "unregsig_result")
+            \cup Flag(~tainted /\ alone # {}, "unregsig_left_an_action_behind")
+            \* unregister_signal is one step of the model: a delivery that ran one of the actions it
+            \* removed saw the state before that step, hence every other one that was registered
+            \* when the delivery began
+            \cup Flag(\E d \in donefr : d.sig = R.sig /\ d.ran \cap mine # {}
+                                         /\ (mine \cap d.init) \ d.ran # {},
+                      "bulk_removal_seen_partially")
             \cup Flag(\E g \in mine : Running(g), "act_in_progress_at_unreg_return")
-            \cup Flag(\E g \in mine : g \notin dropped, "not_dropped_at_return")
-    /\ Keep(<<frames, dropped, usedIds, before, libDisp, prevKind, live, cur, replaced, held,
+            \cup Flag(~tainted /\ \E g \in mine : g \notin dropped, "not_dropped_at_return")
+    /\ Keep2(<<frames, dropped, usedIds, before, libDisp, prevKind, live, cur, replaced, held,
               everFreed>>)
 
 TDispLib ==
@@ -180,7 +225,8 @@ TDeliver ==
     /\ Ev("deliver")
     /\ frames' = Put(frames, F,
           [sig |-> R.sig, id |-> R.id, must |-> TagsOf(R.sig, {"active"}),
-           may |-> TagsOf(R.sig, {"registering", "active", "removing"}),
+           init |-> TagsOf(R.sig, {"active"}),
+           may |-> TagsOf(R.sig, {"registering", "active", "removing", "maybe"}),
            ran |-> << >>, inAct |-> 0, prev |-> 0])
     /\ viol' = viol \cup Flag(R.sig \notin libDisp, "delivery_before_takeover_by_harness")
     /\ Keep(<<acts, dropped, usedIds, before, libDisp, prevKind, live, cur, replaced, held,
@@ -238,8 +284,9 @@ TReturn ==
             \cup Flag(R.allocs > 0, "handler_alloc")
             \cup Flag(R.frees > 0, "handler_free")
             \cup Flag(R.steps > HandlerBase + HandlerPerAct * Len(f.ran), "handler_steps")
-    /\ Keep(<<acts, dropped, usedIds, before, libDisp, prevKind, live, cur, replaced, held,
-              everFreed>>)
+       /\ donefr' = donefr \cup {[sig |-> f.sig, init |-> f.init, ran |-> Range(f.ran)]}
+    /\ Keep4(<<acts, dropped, usedIds, before, libDisp, prevKind, live, cur, replaced, held,
+               everFreed>>)
 
 \* The state an action captured was released.
 TActDrop ==
@@ -251,8 +298,15 @@ TActDrop ==
             \cup Flag(g \in dropped, "double_drop")
             \cup Flag(R.d > 0, "drop_in_handler")
             \cup Flag(Running(g), "drop_while_running")
-            \cup Flag(~(a.st \in {"removing", "registering"} /\ a.by = R.t), "drop_by_other_than_remover")
-    /\ Keep(<<acts, frames, usedIds, before, libDisp, prevKind, live, cur, replaced, held,
+            \cup Flag(~(a.st \in {"removing", "registering", "maybe"} /\ R.t \in a.by)
+                      /\ ~(a.st = "registering" /\ <<R.t, a.sig>> \in usig),
+                      "drop_by_other_than_remover")
+       /\ acts' = IF a.st \in {"removing", "maybe"} /\ R.t \in a.by
+                  THEN [acts EXCEPT ![g].by = {R.t}, ![g].st = "removing"]
+                  ELSE IF a.st = "registering" /\ R.t \notin a.by /\ <<R.t, a.sig>> \in usig
+                  THEN [acts EXCEPT ![g].by = {R.t}, ![g].st = "removing"]
+                  ELSE acts
+    /\ Keep(<<frames, usedIds, before, libDisp, prevKind, live, cur, replaced, held,
               everFreed>>)
 
 (* the two half-locks, as in HalfLockAbs *)
@@ -353,14 +407,20 @@ C01set == {"act_after_removed", "act_uses_released_state", "act_in_progress_at_u
            "drop_by_other_than_remover", "open_of_released_snapshot", "free_while_held",
            "double_free", "free_of_current", "free_in_handler", "aborted",
            "failed_registration_leaks_action", "dropped_while_registered"}
+\* "free_while_held": a delivery keeps walking a registry version that a mutator has released (the
+\* harness stops the run before the real free) - which actions it runs from there on is undefined,
+\* in particular it may run an action whose unregister has returned.
 C02set == {"ran_twice", "not_registered_during_delivery", "wrong_signal",
-           "actions_overlap_in_one_delivery", "registered_action_did_not_run", "order"}
+           "actions_overlap_in_one_delivery", "registered_action_did_not_run", "order",
+           "free_while_held", "bulk_removal_seen_partially"}
 C03set == {"handler_blocked_or_spinning", "handler_lock", "handler_hint", "handler_alloc", "handler_free", "handler_steps",
            "guard_outlives_delivery"}
 C04set == {"prev_twice", "prev_after_action", "prev_wrong_signal", "prev_convention",
            "prev_arguments", "prev_outside_delivery", "prev_missing_before_action",
            "prev_not_exactly_once", "prev_unexpected"}
-C05set == {"id_reused", "unreg_result", "unregsig_result", "final_content_mismatch",
+C05set == {"id_reused", "unreg_result", "unregsig_result", "unregsig_left_an_action_behind",
+           "bulk_removal_seen_partially",
+           "final_content_mismatch",
            "final_order", "next_id_not_fresh"}
 C18set == {"deadlock", "livelock", "panic", "mutator_wedged_by_earlier_panic"}
 Harness == {"tag_reused_by_harness", "delivery_before_takeover_by_harness",
